@@ -104,6 +104,49 @@ def correspond(ctx):
             elif A.size[0] and A.size[1]:
                 i, j = rng.randrange(A.size[0]), rng.randrange(A.size[1])
                 emit('get %s %d %d' % (a, i, j), lambda: frs(A[i, j]))
+            # general indexing and indexed assignment on a copy, against the dense semantics (oracle only): integers (negative), slices,
+            # index lists with negative entries; right-hand sides: number, dense matrix, sparse matrix
+            if rng.random() < 0.5 and A.size[0] and A.size[1]:
+                m, n = A.size
+                def key(dim):
+                    r = rng.random()
+                    if r < 0.25: return rng.randrange(-dim, dim)
+                    if r < 0.5:
+                        lo = rng.randrange(0, dim); return slice(lo, rng.randrange(lo, dim + 1), rng.choice([1, 1, 2]))
+                    if r < 0.6: return slice(None)
+                    return [rng.randrange(-dim, dim) for _ in range(rng.randint(1, 3))]
+                I, J = key(m), key(n)
+                S = +A; D = matrix(A)
+                # an index list that names a position twice makes the result of an assignment depend on the order of the writes, which the
+                # manual does not fix: such lists are only used for reading
+                dup = any(isinstance(K, list) and len(set(k % dim for k in K)) < len(K) for K, dim in ((I, m), (J, n)))
+                try:
+                    sub = D[I, J]
+                    shape = sub.size if isinstance(sub, matrix) else (1, 1)
+                    kind = rng.choice(['number', 'dense', 'sparse'])
+                    if kind == 'number': rhs_s = rhs_d = val()
+                    else:
+                        vals = [val() for _ in range(shape[0] * shape[1])]
+                        rhs_d = matrix(vals, shape)
+                        rhs_s = rhs_d if kind == 'dense' else sparse(rhs_d)
+                    ok_d = True
+                    try: D[I, J] = rhs_d
+                    except Exception as e: ok_d = type(e).__name__
+                    try: S[I, J] = rhs_s; ok_s = True
+                    except Exception as e: ok_s = type(e).__name__
+                    what = 'A[%r, %r] = %s on a %dx%d matrix' % (I, J, kind, m, n)
+                    if dup: pass
+                    elif ok_d is True and ok_s is True: dense_eq(S, D, 'assignment ' + what, list(seq))
+                    elif (ok_d is True) != (ok_s is True) and not (kind == 'sparse' and ok_d is True):
+                        ctx.violation('c16:dense-image:assignment-refusal', '%s: dense %s, sparse %s' % (what, ok_d, ok_s), {'sequence': list(seq), 'I': repr(I), 'J': repr(J)})
+                    G = A[I, J]; Gd = matrix(A)[I, J]
+                    oracle_checks += 1
+                    if isinstance(G, spmatrix):
+                        if not isinstance(Gd, matrix) or G.size != Gd.size or list(matrix(G)) != list(Gd) or not valid(G):
+                            ctx.violation('c16:dense-image:indexing', 'A[%r, %r] differs from the dense result' % (I, J), {'sequence': list(seq), 'I': repr(I), 'J': repr(J)})
+                    elif G != Gd:
+                        ctx.violation('c16:dense-image:indexing', 'A[%r, %r] = %r, dense %r' % (I, J, G, Gd), {'sequence': list(seq), 'I': repr(I), 'J': repr(J)})
+                except (IndexError, TypeError, ValueError): pass
             # mixed sparse/dense products against the dense formulas (oracle only)
             if rng.random() < 0.3 and A.size[0] and A.size[1]:
                 m, n = A.size
